@@ -128,8 +128,11 @@ CrashConsistent(s, w) ==
   /\ \A t \in LiveOf(s, w) : s.w[w].txs[t].ty = "TxSent" =>
         /\ Cardinality(LinkedOuts(s, w, t, {"Locked", "Spent"})) >= s.w[w].txs[t].nin
         /\ Cardinality(LinkedOuts(s, w, t, {"Unconfirmed", "Unspent"})) >= s.w[w].txs[t].nout
+  \* an output still awaited belongs to a logged transaction that has not been cancelled (a cancel
+  \* removes what the transaction was to bring in together with flagging its entry)
   /\ \A k \in DOMAIN s.w[w].outs : (s.w[w].outs[k].st = "Unconfirmed" /\ ~s.w[w].outs[k].cb) =>
-        TxKeyOf(s.w[w].outs[k].acct, s.w[w].outs[k].tx) \in DOMAIN s.w[w].txs
+        /\ TxKeyOf(s.w[w].outs[k].acct, s.w[w].outs[k].tx) \in DOMAIN s.w[w].txs
+        /\ s.w[w].txs[TxKeyOf(s.w[w].outs[k].acct, s.w[w].outs[k].tx)].ty \notin {"TxSentCancelled", "TxReceivedCancelled"}
 
 \* ---- C16 / C18 ----------------------------------------------------------
 \* what the chain holds for the seed of wallet w (ground truth: `utxo` is the real
